@@ -11,11 +11,13 @@ from props import common as K
 
 META = {
     "level": "other",
+    "technique": "static analysis of type-checked MIR (rustc_private driver): MIR must-pass-through graph cuts, guard polarity and provenance slicing over the validation entry points; order-table decision of Block::is_encompassed",
     "explanation": "Static must-pass-through / guard-polarity / provenance rules over the MIR of every "
                    "certificate validation entry point: no success path avoids the validity check, the "
                    "signature check under the issuer's key, the AKI==issuer-SKI and SKI==key-hash guards, "
                    "and the stored resources are exactly the result of verify_issued on the issuer's "
-                   "validated resources of the same family.",
+                   "validated resources of the same family; the per-block containment test behind it (Block::"
+                   "is_encompassed) equals c ≤ a ∧ b ≤ d on every weak ordering of the bounds.",
     "not_decided": ["that aws-lc verify_sig implements RSA/ECDSA", "that contains/intersection compute "
                     "mathematical subset/intersection (C03)", "bit-level tamper sensitivity"],
     "trusted_base": ["aws-lc-rs verify_sig", "bcder capture/decode"],
